@@ -25,7 +25,8 @@ size    = ("any",) | ("fix", n, ext) | ("range", a, b, ext)     n, a, b: int | (
 field   = (name, tag, ty, presence)          presence: None | "opt" | ("dflt", lit | ("ref", name))
 lit     = ("b", bool) | ("i", int) | ("s", [tok]) | ("o", hexdigits:str) | ("ob", bits:str)
           a string literal is given by its tokens (each a separator-free word or one separator
-          character); it denotes — and is rendered as — the tokens joined by single blanks
+          character, a separator may come first; no token at all: the empty literal); it denotes
+          — and is rendered as — the tokens joined by single blanks.  "o" / "ob" may be empty.
 
 Canonical dump (one token without blanks; the same text is produced by harness/src/parse.rs and
 lean/Driver/ParseStream.lean from the parsed model)
@@ -101,7 +102,9 @@ class Printer:
 
     def bound(self, b, default_kw):
         if b is None or b in ("MIN", "MAX"):
-            return self.kw(default_kw)
+            # MIN / MAX stand where a value reference may stand (`min`, `max`, `Max` are value
+            # references): these two keywords are written in upper case in every keyword style
+            return T(default_kw)
         if isinstance(b, tuple):
             return T(b[1])
         return self.num(b)
@@ -687,13 +690,16 @@ class Gen:
         if k == "i":
             return ("i", self.int_value())
         if k == "s":
-            toks = [self.word()]
-            for _ in range(self.r.range(0, 3)):
+            # any tokens, a separator in first position and the empty literal included
+            toks = []
+            for _ in range(0 if self.r.chance(1, 12) else self.r.range(1, 4)):
                 toks.append(self.r.choice(sorted(SEPARATORS - {'"'})) if self.r.chance(1, 4) else self.word())
             return ("s", toks)
         if k == "o":
-            return ("o", "".join(self.r.choice("0123456789abcdefABCDEF") for _ in range(2 * self.r.range(1, 5))))
-        return ("ob", "".join(self.r.choice("01") for _ in range(8 * self.r.range(1, 3))))
+            n = 0 if self.r.chance(1, 12) else self.r.range(1, 5)
+            return ("o", "".join(self.r.choice("0123456789abcdefABCDEF") for _ in range(2 * n)))
+        n = 0 if self.r.chance(1, 12) else self.r.range(1, 3)
+        return ("ob", "".join(self.r.choice("01") for _ in range(8 * n)))
 
     # -- types
     def leaf(self):
